@@ -209,7 +209,7 @@ def run(ctx):
       tokens = [(tokpos + k) % ncat for k in range(4)]
       tokpos += 4
       items.append((serial, sk, {"fmt": fmt, "fn": fn, "fd": fd}, tp, ctx.seed * 7919 + serial, tokens))
-  nrandom = 30000 if thorough else 300
+  nrandom = 30000 if thorough else 800
   cfgs = configs()
   for _ in range(nrandom):
     serial += 1
